@@ -7,7 +7,9 @@ import (
 	"io"
 	"os"
 	"strings"
+	"sync"
 	"testing"
+	"time"
 
 	"seehuhn.de/go/sfnt"
 	"seehuhn.de/go/sfnt/cff"
@@ -45,7 +47,38 @@ type outcome struct {
 	panic      *guard.Panic
 	phase      string // "decode" or "sweep"
 	alloc      uint64
-	sweepAlloc uint64 // allocated by the accessor sweep
+	sweepAlloc uint64        // allocated by the accessor sweep
+	cpu        time.Duration // CPU time of the decoding thread (decode phase)
+	sweepCPU   time.Duration
+}
+
+// The time clause.  Wall-clock time is only used by the hang watchdog (30 s +
+// 1 s/KiB, two stages); what is bounded here is the CPU time of the thread
+// that runs the decoder, which does not grow when the machine is busy.  The
+// constants are far above anything the unchanged tree needs (the evidence
+// carries the largest ratio observed): they exist to catch work that grows
+// faster than the input (quadratic re-scanning, call trees that escape the
+// subroutine budget), not to rate speed.
+const (
+	cpuC0 = 2 * time.Second
+	cpuC1 = 20 * time.Microsecond // per input byte
+)
+
+func cpuLimit(n int) time.Duration { return cpuC0 + time.Duration(n)*cpuC1 }
+
+var cpuWorst struct {
+	mu    sync.Mutex
+	ratio float64
+}
+
+func noteCPU(tgName string, n int, d time.Duration) {
+	r := float64(d) / float64(cpuLimit(n))
+	cpuWorst.mu.Lock()
+	defer cpuWorst.mu.Unlock()
+	if r > cpuWorst.ratio {
+		cpuWorst.ratio = r
+		stats.Note("cpu-bound", fmt.Sprintf("thread CPU time <= 2 s + 20 us/byte; largest share of the bound used by one call in this run: %.4f (%s, %d bytes, %s)", r, tgName, n, d))
+	}
 }
 
 // target is one decoder of the property's list with its accessor sweep.
@@ -330,10 +363,12 @@ func (tg *target) run(b []byte) outcome {
 	inflight(tg.name, b)
 	guard.Watch("c02-"+strings.ReplaceAll(tg.name, "/", "_"), b, guard.HangLimit(len(b)), func() {
 		out.alloc = guard.Alloc(func() {
-			out.panic = guard.Try(func() {
-				var err error
-				sweep, err = tg.decode(b)
-				out.accepted = err == nil
+			out.cpu = guard.CPU(func() {
+				out.panic = guard.Try(func() {
+					var err error
+					sweep, err = tg.decode(b)
+					out.accepted = err == nil
+				})
 			})
 		})
 		if out.panic == nil && sweep != nil {
@@ -341,10 +376,14 @@ func (tg *target) run(b []byte) outcome {
 			// the lazy accessors decode too (cmap subtables, simple glyphs):
 			// they are held to the same bound as the decoder itself
 			out.sweepAlloc = guard.Alloc(func() {
-				out.panic = guard.Try(sweep)
+				out.sweepCPU = guard.CPU(func() {
+					out.panic = guard.Try(sweep)
+				})
 			})
 		}
 	})
+	noteCPU(tg.name, len(b), out.cpu)
+	noteCPU(tg.name+" (accessors)", len(b), out.sweepCPU)
 	return out
 }
 
@@ -363,6 +402,30 @@ func (tg *target) verdict(b []byte, o outcome) error {
 			return nil
 		}
 		return fmt.Errorf("%s: decoding a %d-byte input allocated %d bytes (bound %d = 64 MiB + 1 KiB per input byte)", tg.name, len(b), o.alloc, limit)
+	} else if o.cpu > cpuLimit(len(b)) || o.sweepCPU > cpuLimit(len(b)) {
+		// measured again, twice, before anything is said: the smallest of
+		// three measurements must still exceed the bound
+		what, d := "decoding", o.cpu
+		if o.sweepCPU > d {
+			what, d = "the accessors of the value decoded from", o.sweepCPU
+		}
+		for k := 0; k < 2 && d > cpuLimit(len(b)); k++ {
+			o2 := tg.run(b)
+			d2 := o2.cpu
+			if what != "decoding" {
+				d2 = o2.sweepCPU
+			}
+			if d2 < d {
+				d = d2
+			}
+		}
+		if d > cpuLimit(len(b)) {
+			key := "cpu:" + tg.name
+			if stats.Known("C02", key) {
+				return nil
+			}
+			return fmt.Errorf("%s: %s a %d-byte input took %s of CPU time, three times over (bound %s = 2 s + 20 us per input byte)", tg.name, what, len(b), d, cpuLimit(len(b)))
+		}
 	} else if o.sweepAlloc > limit {
 		key := "alloc-accessors:" + tg.name
 		if stats.Known("C02", key) {
